@@ -75,6 +75,10 @@ class EndpointRequestGenerator:
         else:
             args_list.append("headers=None")
 
+        # Determine 'cookies' argument (the cookies dict is created by UrlArgsGenerator)
+        if any(p.param_in == "cookie" for p in op.parameters):
+            args_list.append("cookies=cookies")
+
         positional_args_str = f'"{op.method.upper()}", url'  # url variable is assumed to be defined
         keyword_args_str = ", ".join(args_list)
 
